@@ -167,7 +167,9 @@ fn step<const ALLOWED: u8, D: DocSet>(
         }
         6 if ALLOWED & 64 != 0 => {
             let min_doc: DocId = kani::any();
-            kani::assume(min_doc >= cur || cur == TERMINATED);
+            // `fill_bitset_block` starts with `seek(min_doc)`: same precondition as seek (doc <= target).
+            // An exhausted doc set only accepts TERMINATED, which is not a window start: excluded.
+            kani::assume(min_doc >= cur);
             kani::assume(min_doc < 1_000_000);
             let mut mask = [TinySet::EMPTY; BLOCK_NUM_TINYBITSETS];
             let next = ds.fill_bitset_block(min_doc, &mut mask);
